@@ -219,6 +219,18 @@ def check_tag_tests_recognised(m):
                 pp = flow.resolve_ptr(i.ops[0], m)
             except AnalysisError:
                 continue
+            if pp.root.k == "arg" and (pp.root.ty or "").startswith("%struct.rf_wavheader") and not pp.var:
+                # ... or reads the bytes of one of the header's id members itself
+                try:
+                    table, _ = field_table(m)
+                except Exception:
+                    table = {}
+                for f_, (o_, sz_) in table.items():
+                    if f_.endswith("_id") or f_ in ("format",):
+                        if o_ <= pp.off < o_ + sz_:
+                            raise AnalysisError("anchor vanished: %s reads the bytes of wh->%s itself (%s) - a chunk id compared by hand: the "
+                                                "walks' guards ('the chunk is fact', 'the container is RIFF/WAVE') are recognised from "
+                                                "memcmp-style comparisons only" % (fn.name, f_, i.loc))
             if pp.root.k == "global" and pp.root.name in tags:
                 raise AnalysisError("anchor vanished: %s reads the bytes of @%s itself (%s) - a chunk id compared by hand, byte by byte or as a word: the walks' guards "
                                     "('the chunk is fact', 'the container is RIFF/WAVE') are recognised from memcmp-style comparisons only"
